@@ -36,7 +36,10 @@ pub struct Walrus {
     pub(super) paths: Arc<WalPathManager>,
     topic_clean_tracker: Arc<TopicCleanTracker>,
     pub(super) writers: RwLock<HashMap<String, Arc<Writer>>>,
-    topic_entry_counts: RwLock<HashMap<String, u64>>,
+    // net count per topic: entries counted by appends minus entries counted by consuming
+    // reads. Signed: a consumer can return an entry before its appender has counted it,
+    // so the value is transiently negative; the getters clamp at zero.
+    topic_entry_counts: RwLock<HashMap<String, i64>>,
     pub(super) read_consistency: ReadConsistency,
     pub(super) fsync_schedule: FsyncSchedule,
 }
@@ -136,13 +139,14 @@ impl Walrus {
             .read()
             .ok()
             .and_then(|m| m.get(topic).copied())
+            .map(|n| n.max(0) as u64)
             .unwrap_or(0)
     }
 
     pub fn get_topic_entry_counts(&self) -> HashMap<String, u64> {
         self.topic_entry_counts
             .read()
-            .map(|m| m.clone())
+            .map(|m| m.iter().map(|(t, n)| (t.clone(), (*n).max(0) as u64)).collect())
             .unwrap_or_default()
     }
 
@@ -193,7 +197,7 @@ impl Walrus {
         }
         if let Ok(mut guard) = self.topic_entry_counts.write() {
             let entry = guard.entry(topic.to_string()).or_insert(0);
-            *entry = entry.saturating_add(delta);
+            *entry = entry.saturating_add(i64::try_from(delta).unwrap_or(i64::MAX));
         }
     }
 
@@ -203,7 +207,7 @@ impl Walrus {
         }
         if let Ok(mut guard) = self.topic_entry_counts.write() {
             let entry = guard.entry(topic.to_string()).or_insert(0);
-            *entry = entry.saturating_sub(delta);
+            *entry = entry.saturating_sub(i64::try_from(delta).unwrap_or(i64::MAX));
         }
     }
 
@@ -531,7 +535,7 @@ impl Walrus {
             count
         }
 
-        let mut counts: HashMap<String, u64> = HashMap::new();
+        let mut counts: HashMap<String, i64> = HashMap::new();
 
         let idx_guard = self.read_offset_index.read().ok();
         let reader_guard = self.reader.data.read().ok();
@@ -617,7 +621,10 @@ impl Walrus {
                     }
                 }
 
-                counts.insert(topic.to_string(), total_entries.saturating_sub(consumed_entries));
+                counts.insert(
+                    topic.to_string(),
+                    i64::try_from(total_entries.saturating_sub(consumed_entries)).unwrap_or(i64::MAX),
+                );
             }
         }
 
